@@ -17,12 +17,13 @@ type c02Node struct {
 	fb       int
 	lastErr  error
 	firstErr error
-	fbMode   int // 0 ok, 1 err
+	fbMode   int // 0 ok, 1 err, 2 ok with a nil value
 	fbErr    error
 	fbVal    any
 	execVal  any
 	postGot  any
 	posts    int
+	partial  bool // failed attempts return a partial value next to their error
 	maxFails int // > 0: at most this many failed attempts, then the attempt succeeds
 }
 
@@ -38,6 +39,9 @@ func (n *c02Node) Exec(ctx context.Context, p any) (any, error) {
 		if n.firstErr == nil {
 			n.firstErr = n.lastErr
 		}
+		if n.partial {
+			return &vTok{id: 666}, n.lastErr // a partial value next to the error: still a failed attempt
+		}
 		return nil, n.lastErr
 	}
 	n.okAt = n.calls
@@ -52,6 +56,11 @@ func (n *c02Node) ExecFallback(p any, err error) (any, error) {
 	if n.fbMode == 1 {
 		n.fbErr = vNewErr()
 		return nil, n.fbErr
+	}
+	if n.fbMode == 2 {
+		vCover("fallback-recovers-with-nil")
+		n.fbVal = nil // swallowing the failure with a nil value: that nil is the outcome
+		return nil, nil
 	}
 	n.fbVal = &vError{id: 2000}
 	return n.fbVal, nil
@@ -69,7 +78,8 @@ func VH_C02_struct() {
 	vAssume(1 <= N && N <= maxN)
 	vUnwind(maxN + 2)
 	n := &c02Node{BaseNode: NewBaseNode(WithMaxRetries(N)), prepTok: &vError{id: 7}}
-	n.fbMode = vChoice("fbMode", 2)
+	n.fbMode = vChoice("fbMode", 3)
+	n.partial = vNondet[bool]("failedAttemptsAlsoReturnAValue")
 	_, err := Run(vNewCtx(), n, NewSharedStore())
 	vLog("calls", n.calls)
 	vLog("fb", n.fb)
@@ -84,7 +94,7 @@ func VH_C02_struct() {
 		vCover("all-failed")
 		vAssert(n.calls == N, "exactly-N-attempts")
 		vAssert(n.fb == 1, "fallback-exactly-once")
-		if n.fbMode == 0 {
+		if n.fbMode != 1 {
 			vCover("fallback-ok")
 			vAssert(err == nil && n.posts == 1 && vSame(n.postGot, n.fbVal), "fallback-outcome-replaces-exec")
 		} else {
